@@ -51,7 +51,8 @@ KNOWN_AS_VIOLATION = True
 
 RULE = ('Per case: a generated tree of 2 top-level packages / 9 modules (one submodule of the '
         'second package is named exactly like the first top-level package; flags: does each package '
-        '__init__ import its submodules; which re-exports exist), every module defining fn, gn, '
+        '__init__ import its submodules; which re-exports exist), every module defining fn, its '
+        'functools.wraps-decorated variant wfn (another object, __wrapped__ is fn), gn, '
         'class K with methods meth/other/fn (fn named like the module-level function) and nested '
         'class K.N with method nm, and a consumer '
         'cons; 1-4 config files (roots parsed as string or file, include trees) each enabling '
@@ -68,7 +69,8 @@ RULE = ('Per case: a generated tree of 2 top-level packages / 9 modules (one sub
         'configured, on a valid (no injected fault) case. Distinct = distinct case JSON. Two '
         'bounded sweeps run first: every import form x module depth x __init__ flag (3-file and '
         '1-file layouts, plus one name for two modules in two files, and a plain dotted import '
-        'whose top-level name is bound to another module in another file; 64 cases) and every error '
+        'whose top-level name is bound to another module in another file, and fn / wfn in '
+        'both orders of first use; 76 cases) and every error '
         'class x position (root / included / second root) x variant (108 cases).')
 ASSUMPTIONS = [
     '`from X import Y` is generated only where Y is a module or package (Gin implements every '
@@ -139,8 +141,8 @@ LEVEL_NOTE = ('Trusted: CPython import semantics in the oracle child, the 30-lin
 
 ENABLE = 'from __gin__ import dynamic_registration'
 ALIASES = ['mm', 'nn', 'm1', 'sub', '@top']   # '@top': the first top-level package's own name
-LEAF_DEFS = ['fn', 'gn', 'K', 'K.meth', 'K.other', 'K.N', 'K.N.nm', 'cons', 'K.fn']
-REF_DEFS = ['fn', 'gn', 'K', 'K.N']
+LEAF_DEFS = ['fn', 'gn', 'K', 'K.meth', 'K.other', 'K.N', 'K.N.nm', 'cons', 'K.fn', 'wfn']
+REF_DEFS = ['fn', 'gn', 'K', 'K.N', 'wfn']
 ERRORS = {
     'name-other-file': 'NameError',
     'gin-bound': 'ValueError',
@@ -171,6 +173,16 @@ PACKAGES = (0, 3, 6)
 _BODY = '''
 def fn(x='dx', y='dy'):
   return {'id': _ID + ':fn', 'x': x, 'y': y}
+
+def _traced(f):
+  @functools.wraps(f)
+  def wrapper(x='dx', y='dy'):
+    return {'id': _ID + ':wfn', 'x': x, 'y': y}
+  wrapper._c19_id = 'wfn'
+  return wrapper
+
+
+wfn = _traced(fn)  # a functools.wraps-decorated variant of fn: another object, __wrapped__ is fn
 
 %(gn)s
 class K:
@@ -212,7 +224,7 @@ def _write_tree(root, names, pkg):
   sources = {}
   for i, name in enumerate(names):
     is_pkg = i in PACKAGES
-    src = '_ID = __name__\n' + _BODY % {'gn': '' if is_pkg else _GN}
+    src = 'import functools\n_ID = __name__\n' + _BODY % {'gn': '' if is_pkg else _GN}
     if i == 0:
       if init[0]:
         src += f'\nfrom {a} import m1, m2, sub\n'
@@ -307,7 +319,8 @@ def _py_table(p):
         if inspect.isfunction(v) or inspect.isclass(v):
           walk(path + '.' + n, v, depth + 1)
     elif inspect.isfunction(obj):
-      table[path] = obj.__module__ + ':' + obj.__qualname__
+      # a decorated variant carries its own identity (functools.wraps copies __qualname__)
+      table[path] = obj.__module__ + ':' + getattr(obj, '_c19_id', obj.__qualname__)
 
   for n, v in sorted(ns.items()):
     if n != '__builtins__':
@@ -1252,11 +1265,12 @@ def _case(draw):
   mod_i = st.just(focus) | st.integers(0, 8)
   imp = st.tuples(mod_i, st.integers(0, 3), _alias_i).map(list)
   imp_i = st.just(0) | st.integers(0, 3)
-  def_i = st.sampled_from([0, 1, 2, 2, 3, 3, 3, 4, 5, 6, 7, 8])
+  def_i = st.sampled_from([0, 0, 1, 2, 2, 3, 3, 3, 4, 5, 6, 7, 8, 9, 9])
   bind = st.tuples(st.just('b'), imp_i, def_i, _small, st.integers(0, 1), st.integers(0, 999),
                    st.sampled_from([0, 0, 0, 1])).map(list)
   ref = st.tuples(st.just('r'), imp_i, _small, st.integers(0, 1), imp_i,
-                  st.sampled_from([0, 1, 2, 2, 2, 3]), _small, st.sampled_from([1, 1, 0])).map(list)
+                  st.sampled_from([0, 1, 2, 2, 2, 3, 4]), _small,
+                  st.sampled_from([1, 1, 0])).map(list)
   stmt = st.one_of(bind, bind, ref)
   nfiles = draw(st.sampled_from([1, 2, 2, 3, 3, 4]))
   files = []
@@ -1306,6 +1320,19 @@ def _sweep_forms(tier):
                           ['b', 0, 6, 0, 1, 24, 0], ['b', 0, 7, 0, 1, 25, 1]]}
       cases.append({'pkg': {'init': [False] * 3, 'reexp': 0}, 'files': [single],
                     'error': None, 'keep': False})
+  # fn and its functools.wraps-decorated variant wfn are two objects: both orders of first use
+  for mod, form in ((1, 1), (0, 0), (5, 2)):
+    for first, second in ((0, 9), (9, 0)):
+      for via_ref in (0, 1):
+        stmts = [['b', 0, first, 0, 0, 51, 0], ['b', 0, second, 0, 0, 52, 0],
+                 ['b', 0, second, 0, 1, 53, 0]]
+        if via_ref:
+          stmts = [['r', 0, 0, 0, 0, 0 if first == 0 else 4, 0, 1],
+                   ['r', 0, 0, 1, 0, 4 if first == 0 else 0, 0, 1]] + stmts[1:]
+        cases.append({'pkg': {'init': [False] * 3, 'reexp': 0},
+                      'files': [{'parent': None, 'at': 0, 'str': False,
+                                 'imports': [[mod, form, 0]], 'stmts': stmts}],
+                      'error': None, 'keep': False})
   # a plain dotted import binds its TOP-LEVEL name; another file binds that very name to another
   # module (`from Q import P` where Q.P is a submodule named like package P, or an alias P)
   for plain_mod in (1, 5):
